@@ -566,7 +566,34 @@ func c07Ints(c *Ctx) {
 
 	// every non-constant slice bound in the search path is dominated by a length guard on the same slice
 	nSlices := 0
-	for _, fk := range []string{"(*querylog.queryLog).search", "(*querylog.queryLog).searchMemory", "(*querylog.queryLog).searchFiles", "(*querylog.queryLog).readEntries"} {
+	sliceFns := []string{"(*querylog.queryLog).search", "(*querylog.queryLog).searchMemory", "(*querylog.queryLog).searchFiles", "(*querylog.queryLog).readEntries"}
+	// helpers of the package that these call directly and that receive request integers (a part of the paging
+	// arithmetic moved into its own function)
+	for _, fk := range append([]string{}, sliceFns...) {
+		if fn := p.Fn(fk); fn != nil {
+			for _, call := range core.Calls(fn) {
+				h := core.Callee(call.Common)
+				if h == nil || h.Blocks == nil || core.PkgOf(h) != "querylog" {
+					continue
+				}
+				hk := core.FuncKey(h)
+				dup := false
+				for _, k := range sliceFns {
+					dup = dup || k == hk
+				}
+				takesInt := false
+				for _, prm := range h.Params {
+					if bt, ok := prm.Type().Underlying().(*types.Basic); ok && bt.Kind() == types.Int {
+						takesInt = true
+					}
+				}
+				if !dup && takesInt {
+					sliceFns = append(sliceFns, hk)
+				}
+			}
+		}
+	}
+	for _, fk := range sliceFns {
 		fn := p.Fn(fk)
 		if fn == nil {
 			r.Undecided("C07-D2", "slice-fn:"+fk, "-", "anchor not found")
